@@ -242,7 +242,7 @@ def run(chk):
     registry_replay(chk, chk.tier == "quick")
     # the pure helper functions behind this property (spec/Helpers.tla)
     from .helpers import run_helpers
-    run_helpers(chk, ('low', 'split'))
+    run_helpers(chk, ('low', 'split', 'mti'))
     return chk.finish(
         rule="(a) order_substitutions on every index map of 4 (thorough: 5) "
              "same-space indices into a pool with extra names (chains, cycles, "
